@@ -23,6 +23,8 @@ Fixpoint check_steps (c : cache) (dirty : bool) (l : list cstep) : bool :=
                   end in
     out_eqb o (s_out s) &&
     match s_remote s with Some w => dirty' || tree_eqb (cR c') w | None => true end &&
+    (* the remote observed after a FAILED Commit is one from which the model proves convergence *)
+    match s_op s, s_remote s with CCommitFault, Some w => partial_ok c w | _, _ => true end &&
     match s_view s with Some w => tree_eqb (cview c') w | None => true end &&
     check_steps c' dirty' l'
   end.
